@@ -3,16 +3,19 @@
 // the cut-off that passes the model's own pre-filters is handed to the narrow phase (H4 reports); oracle (b): forces after run()
 // equal an all-pairs application of the model's own narrow-phase routine on a cloned tissue.
 #include "contact_common.hpp"
+#include "local_mesh_refiner.hpp"
 using namespace vf; using namespace cx;
 
-struct Config { int mesh_a, mesh_b, mesh_c; int ox, oy, oz; int gt; int cut; int lmin; int tp; double size_b; };   // offsets in half cell sizes; mesh_c = -1: two cells
+struct Config { int mesh_a, mesh_b, mesh_c; int ox, oy, oz; int gt; int cut; int lmin; int tp; double size_b; int hist = 0; };   // offsets in half cell sizes; mesh_c = -1: two cells
 static std::vector<sc::Mesh> g_meshes;
 static const double GT[4][3] = {{0, 0, 0}, {1024.25, 1024.25, 1024.25}, {-1024.25, 512.5, -2048.75}, {-0.5, -0.5, -0.5}};
 static const double CUT_ADH[3] = {0.1, 0.5, 0.25}, CUT_REP[3] = {0.1, 0.25, 0.5}, LMIN[2] = {0.2, 1.0};
 static const int TYPE_PAIRS[6][2] = {{0, 0}, {0, 1}, {1, 0}, {0, 2}, {3, 0}, {0, 4}};
 
-static std::string cfg_text(const Config& c) { std::ostringstream o; o << c.mesh_a << " " << c.mesh_b << " " << c.mesh_c << " " << c.ox << " " << c.oy << " " << c.oz << " " << c.gt << " " << c.cut << " " << c.lmin << " " << c.tp << " " << dhex(c.size_b); return o.str(); }
-static Config cfg_parse(const std::string& s) { std::istringstream i(s); Config c; std::string h; i >> c.mesh_a >> c.mesh_b >> c.mesh_c >> c.ox >> c.oy >> c.oz >> c.gt >> c.cut >> c.lmin >> c.tp >> h; c.size_b = strtod(h.c_str(), 0); return c; }
+static const char* HIST_NAME[3] = {"fresh cells", "first cell after a real edge collapse (free face and node slots at the head of the population)", "both cells after a real edge collapse, persistent ids as after a removal"};
+static long g_free_slot_configs = 0;
+static std::string cfg_text(const Config& c) { std::ostringstream o; o << c.mesh_a << " " << c.mesh_b << " " << c.mesh_c << " " << c.ox << " " << c.oy << " " << c.oz << " " << c.gt << " " << c.cut << " " << c.lmin << " " << c.tp << " " << dhex(c.size_b) << " " << c.hist; return o.str(); }
+static Config cfg_parse(const std::string& s) { std::istringstream i(s); Config c; std::string h; i >> c.mesh_a >> c.mesh_b >> c.mesh_c >> c.ox >> c.oy >> c.oz >> c.gt >> c.cut >> c.lmin >> c.tp >> h; c.size_b = strtod(h.c_str(), 0); if (!(i >> c.hist)) c.hist = 0; return c; }
 static std::string cfg_json(const Config& c) { std::ostringstream o; o << "{\"meshes\":[\"" << g_meshes[c.mesh_a].name << "\",\"" << g_meshes[c.mesh_b].name << "\"" << (c.mesh_c >= 0 ? ",\"" + g_meshes[c.mesh_c].name + "\"" : "") << "],\"offset_in_half_sizes\":[" << c.ox << "," << c.oy << "," << c.oz << "],\"global_translation\":" << c.gt << ",\"cutoff_adhesion\":" << CUT_ADH[c.cut] << ",\"cutoff_repulsion\":" << CUT_REP[c.cut] << ",\"min_edge_len\":" << LMIN[c.lmin] << ",\"cell_types\":[" << TYPE_PAIRS[c.tp][0] << "," << TYPE_PAIRS[c.tp][1] << "],\"size_of_second_cell\":" << c.size_b << "}"; return o.str(); }
 
 static std::vector<cell_ptr> build(const Config& c) {
@@ -21,7 +24,11 @@ static std::vector<cell_ptr> build(const Config& c) {
     mk(c.mesh_a, 1.0, 0, 0, 0, TYPE_PAIRS[c.tp][0], 0);
     mk(c.mesh_b, c.size_b, 0.5 * c.ox, 0.5 * c.oy, 0.5 * c.oz, TYPE_PAIRS[c.tp][1], 1);
     if (c.mesh_c >= 0) mk(c.mesh_c, 1.0, -0.5 * c.oy, 0.5 * c.oz, 0.75 * c.ox, 0, 2);
-    prepare(cells); return cells;
+    // history: what remeshing leaves behind between two contact phases (no rebase in between)
+    if (c.hist) { local_mesh_refiner lmr(1e-3, 1e3, true); for (unsigned k = 0; k < (c.hist == 2 ? 2u : 1u); k++) { cell_ptr x = cells[k]; bool merged = false;
+            for (int attempt = 0; attempt < 2 && !merged; attempt++) { for (const edge& e0 : x->get_edge_set()) { edge e = e0; bool can = false; try { can = lmr.can_be_merged(e, x); } catch (...) {} if (!can) continue; edge_set es = x->get_edge_set(); try { lmr.merge_edge(e, x, es); merged = true; } catch (...) {} break; }
+                if (!merged && attempt == 0) { edge e = *x->get_edge_set().begin(); edge_set es = x->get_edge_set(); try { lmr.split_edge(e, x, es); } catch (...) {} } } } }
+    prepare(cells, c.hist == 2 ? 1 : 0); return cells;
 }
 
 struct Stat { long pairs_within = 0, candidates = 0, narrow_calls = 0, nonzero_force_cases = 0; };
@@ -31,6 +38,7 @@ static std::string run_config(const Config& c, Stat* st = nullptr) {
     const double cutoff = std::max(CUT_ADH[c.cut], CUT_REP[c.cut]); char buf[400]; std::string err;
     std::vector<cell_ptr> cells = build(c), clone = build(c);
     Model model(sp), model_ref(sp);
+    if (st) for (auto& x : cells) { if (x->get_nb_of_faces() < x->face_lst_.size()) { g_free_slot_configs++; break; } }
     zero_forces(cells); candidates().clear(); collecting() = true; model.run(cells); collecting() = false;
     // (a) every pair within the cut-off that passes the model's own pre-filters must have reached the narrow phase.
     // The clone carries the same (pre-run) geometry: the coupling models move coupled nodes at the end of run().
@@ -59,19 +67,19 @@ static void explore(Result& R) {
     const bool th = R.args.thorough(); setup(); Stat st; long configs = 0;
     int step = th ? 1 : 2;                       // offset lattice -4..4 half sizes: every point (thorough) / every second (quick)
     for (int ma = 0; ma < 3; ma++) for (int mb = 0; mb < 3; mb++) { if (!th && (ma + mb) % 2 && ma != 2) continue;
-      for (int ox = -4; ox <= 4; ox += step) for (int oy = -4; oy <= 4; oy += 2 * step) for (int oz = -4; oz <= 4; oz += 2 * step) for (int gt = 0; gt < 4; gt++) for (int cut = 0; cut < 3; cut++) for (int lm = 0; lm < 2; lm++) for (int tp = 0; tp < 6; tp++) for (double sb : {1.0, 0.4}) {
-        if (!th && ((gt + cut + lm + tp + (sb < 1)) % 3 != (ox + oy + 8) % 3)) continue;     // quick: a regular third of the product (every value of every factor still occurs with every offset)
+      for (int ox = -4; ox <= 4; ox += step) for (int oy = -4; oy <= 4; oy += 2 * step) for (int oz = -4; oz <= 4; oz += 2 * step) for (int gt = 0; gt < 4; gt++) for (int cut = 0; cut < 3; cut++) for (int lm = 0; lm < 2; lm++) for (int tp = 0; tp < 6; tp++) for (double sb : {1.0, 0.4}) for (int hi = 0; hi < 3; hi++) {
+        if (!th && ((gt + cut + lm + tp + (sb < 1) + hi) % 3 != (ox + oy + 8) % 3)) continue; if (th && hi && ((gt + cut + lm + tp + (sb < 1) + hi + ox + oy + oz + 12) % 3)) continue;   /* thorough: every fresh configuration, a regular third of each remeshed one */     // quick: a regular third of the product (every value of every factor still occurs with every offset)
         if (R.out_of_time(0.9)) { R.cap("deadline"); goto done; }
         int mc = (tp == 1 && cut == 1) ? 2 : -1; if (mc >= 0 && !th && ox % 4) mc = -1;
-        Config c{ma, mb, mc, ox, oy, oz, gt, cut, lm, tp, sb}; configs++; progress("cfg=" + cfg_text(c) + "\n"); std::string e = run_config(c, &st);
+        Config c{ma, mb, mc, ox, oy, oz, gt, cut, lm, tp, sb, hi}; configs++; progress("cfg=" + cfg_text(c) + "\n"); std::string e = run_config(c, &st);
         if (!e.empty()) R.violation(clause_of(e) + "|gt=" + std::to_string(gt), cfg_json(c) + ": " + e, "cfg=" + cfg_text(c) + "\n");
         if (configs % 3000 == 1) R.sample(cfg_json(c)); } }
 done:
     R["evaluations"] = configs; R["states"] = configs; R["transitions"] = st.candidates + st.narrow_calls; R["distinct_nontrivial"] = configs; R["traces_validated_against_impl"] = configs;
     R["pairs_within_cutoff_checked"] = st.pairs_within; R["candidates_reported_by_the_model"] = st.candidates; R["reference_narrow_phase_calls"] = st.narrow_calls; R["configurations_with_nonzero_contact_force"] = st.nonzero_force_cases;
-    R.tables["build"]["contact_model_index"] = CONTACT_MODEL_INDEX;
+    R.tables["build"]["contact_model_index"] = CONTACT_MODEL_INDEX; R["configurations_with_free_face_slots"] = g_free_slot_configs; if (configs && !g_free_slot_configs && R.args.nshards == 1) R.internal_error = "no configuration carried free face slots (vacuous)";
     if (configs && !st.pairs_within) R.internal_error = "no pair was ever within the cut-off (vacuous)";
-    R.strings["rule"] = "a configuration = (two or three cells: meshes, size of the second, relative offset on a half-size lattice from overlapping to far, global dyadic translation incl. +-1024.25 and straddling the origin, cut-off pair, min edge length = voxel alignment, cell types); the real contact_model::run is executed; every (node, triangle) pair of different cells whose independently computed distance is within the larger cut-off and which passes the model's own pre-filters must appear among the H4 candidate reports; node forces must equal those of applying the model's own narrow-phase routine to all pairs of a cloned tissue";
+    R.strings["rule"] = "a configuration = (two or three cells: meshes, size of the second, relative offset on a half-size lattice from overlapping to far, global dyadic translation incl. +-1024.25 and straddling the origin, cut-off pair, min edge length = voxel alignment, cell types, history: fresh cells / cells that went through a real edge collapse and carry free slots / the same with persistent ids ahead of list positions); the real contact_model::run is executed; every (node, triangle) pair of different cells whose independently computed distance is within the larger cut-off and which passes the model's own pre-filters must appear among the H4 candidate reports; node forces must equal those of applying the model's own narrow-phase routine to all pairs of a cloned tissue";
     R.assumptions = {"pairs within 1e-9 relative of the cut-off are not judged", "force comparison (b) is skipped for epithelial-epithelial pairs in the coupling models (couplings depend on processing order); (a) still applies", "equal contact strengths on all face types (strength differences are C07's business)", "node normals/curvatures and face normals are fresh, as after the forces phase"};
 }
 static int replay(const Replay& rp, Result& R) { setup(); Config c = cfg_parse(rp.get("cfg")); std::string e1 = run_config(c), e2 = run_config(c); if (e1 != e2) { printf("replay diverged\n"); return 0; } printf("%s\n%s\n", cfg_json(c).c_str(), e1.c_str()); if (!e1.empty()) { R.violation(clause_of(e1), e1, ""); return 1; } return 0; }
